@@ -126,6 +126,24 @@ def handle (line : String) : String :=
         else specFail model ("sampler-" ++
           (if !filesOk evs msgs then "files-not-exactly-once-in-order" else "counter-not-conserved"))
     | _, _ => badCase "samp fields"
+  | ["coll", k, es] =>
+    -- `k` = number of results sent before the timer fired, `none` = the timer never fired
+    match parseEvents es with
+    | some evs =>
+      let sends := evs.map FOp.send
+      let ops? : Option (List FOp) :=
+        if k == "none" then some sends
+        else k.toNat?.map fun k => sends.take k ++ [FOp.timer] ++ sends.drop k
+      match ops? with
+      | none => badCase "coll flush point"
+      | some ops =>
+        let model := showEvents (evWidth evs) (collect sortByScore ops)
+        match parseEvents impl with
+        | none => badCase "impl events"
+        | some out =>
+          if checkCollector evs out then answer model
+          else specFail model "collector-files-or-counters-not-conserved"
+    | none => badCase "coll fields"
   | ["chunk", mx, fs] =>
     match mx.toNat?, parseFiles fs with
     | some mx, some items =>
